@@ -2728,3 +2728,260 @@ def env7(ctx):
     if n_add < 10:
         raise AnchorMissing("ENV-7: %d appends onto parser element lists found (expected >= 10)" % n_add)
     return r
+
+
+# ---------------------------------------------------------------- ERR-7: the caret line telescopes to one column
+
+class _Lin:
+    """a linear form over symbolic atoms"""
+
+    def __init__(self, atoms=None, const=0):
+        self.atoms = dict(atoms or {})
+        self.const = const
+
+    def add(self, o, sign=1):
+        out = dict(self.atoms)
+        for k, v in o.atoms.items():
+            out[k] = out.get(k, 0) + sign * v
+            if out[k] == 0:
+                del out[k]
+        return _Lin(out, self.const + sign * o.const)
+
+    def scale(self, c):
+        return _Lin({k: v * c for k, v in self.atoms.items() if v * c}, self.const * c)
+
+
+class _CaretEval:
+    POS_TY = ("asca::lexer::Position", "asca::alias::AliasPosition")
+    PASS_STR = {"as_str", "to_string", "to_owned", "clone", "as_ref", "borrow", "into"}
+
+    def __init__(self, lib):
+        self.lib = lib
+        self.cols = set()
+        self.by_path = {b.path: b for b in lib.bodies if b.hir and b.kind != "closure"}
+
+    def env_of(self, root, env=None):
+        env = dict(env or {})
+        for n in hirq.walk(root):
+            if n["e"] == "let" and n.get("init") is not None and n["pat"].get("p") == "bind" and "hid" in n["pat"]:
+                env[n["pat"]["hid"]] = ("expr", n["init"])
+        return env
+
+    def canon(self, e, env, depth=0):
+        e = hirq.strip(e)
+        if not isinstance(e, dict) or depth > 10:
+            return "?"
+        k = e.get("e")
+        if k == "path":
+            if "hid" in e and e["hid"] in env:
+                v = env[e["hid"]]
+                if v[0] == "expr":
+                    return self.canon(v[1], env, depth + 1)
+                if v[0] == "val" and isinstance(v[1], str):
+                    return v[1]
+            return "%s#%s" % (e.get("local") or e.get("path"), e.get("hid", ""))
+        if k == "field":
+            v = self.val(e["a"], env, depth + 1)
+            if isinstance(v, list) and e["name"].isdigit() and int(e["name"]) < len(v):
+                x = v[int(e["name"])]
+                return x if isinstance(x, str) else "(%s)" % sorted(x.atoms.items()) if isinstance(x, _Lin) else "?"
+            return "%s.%s" % (self.canon(e["a"], env, depth + 1), e["name"])
+        if k == "unary":
+            return self.canon(e["a"], env, depth + 1) if e.get("op") == "Deref" else "%s(%s)" % (e.get("op"), self.canon(e["a"], env, depth + 1))
+        if k == "mcall":
+            return "%s.%s(%s)" % (self.canon(e["recv"], env, depth + 1), e["name"], ",".join(self.canon(a, env, depth + 1) for a in e["args"]))
+        if k == "call":
+            return "%s(%s)" % (hirq.strip(e["f"]).get("path"), ",".join(self.canon(a, env, depth + 1) for a in e["args"]))
+        if k == "index":
+            return "%s[%s]" % (self.canon(e["a"], env, depth + 1), self.canon(e["i"], env, depth + 1))
+        if k == "lit":
+            return repr(e.get("lit"))
+        if k == "cast":
+            return self.canon(e["a"], env, depth + 1)
+        return "<%s@%s>" % (k, e.get("ln"))
+
+    def val(self, e, env, depth=0):
+        """a tuple value (list), or None"""
+        e = hirq.strip(e)
+        if not isinstance(e, dict) or depth > 10:
+            return None
+        if e.get("e") == "tup":
+            return [self.num(x, env, depth + 1) for x in e["items"]]
+        if e.get("e") == "path" and e.get("hid") in env:
+            v = env[e["hid"]]
+            if v[0] == "expr":
+                return self.val(v[1], env, depth + 1)
+            if v[0] == "val" and isinstance(v[1], list):
+                return v[1]
+        return None
+
+    def num(self, e, env, depth=0):
+        e = hirq.strip(e)
+        if not isinstance(e, dict) or depth > 14:
+            return _Lin({"?": 1})
+        k = e.get("e")
+        if k == "lit" and e.get("lk") == "int":
+            return _Lin(const=int(e["lit"]))
+        if k == "binary" and e["op"] in ("Add", "Sub"):
+            return self.num(e["a"], env, depth + 1).add(self.num(e["b"], env, depth + 1), 1 if e["op"] == "Add" else -1)
+        if k == "binary" and e["op"] == "Mul":
+            a, b = self.num(e["a"], env, depth + 1), self.num(e["b"], env, depth + 1)
+            if not a.atoms:
+                return b.scale(a.const)
+            if not b.atoms:
+                return a.scale(b.const)
+        if k == "unary" and e.get("op") == "Deref" or k == "cast":
+            return self.num(e["a"], env, depth + 1)
+        if k == "mcall" and e["name"] in ("clone", "to_owned") and not e["args"]:
+            return self.num(e["recv"], env, depth + 1)
+        if k == "mcall" and e["name"] in ("saturating_sub", "wrapping_sub", "saturating_add", "wrapping_add") and len(e["args"]) == 1:
+            # the clamped forms agree with the plain ones wherever the plain ones do not overflow
+            return self.num(e["recv"], env, depth + 1).add(self.num(e["args"][0], env, depth + 1), -1 if "sub" in e["name"] else 1)
+        if k == "path" and e.get("hid") in env:
+            v = env[e["hid"]]
+            if v[0] == "expr":
+                return self.num(v[1], env, depth + 1)
+            if v[0] == "val" and isinstance(v[1], _Lin):
+                return v[1]
+        if k == "field":
+            v = self.val(e["a"], env, depth + 1)
+            if isinstance(v, list) and e["name"].isdigit() and int(e["name"]) < len(v) and isinstance(v[int(e["name"])], _Lin):
+                return v[int(e["name"])]
+            key = self.canon(e, env)
+            if e["name"] in ("start", "end") and (e.get("of_ty") or "").lstrip("&").replace("mut ", "") in self.POS_TY:
+                self.cols.add(key)
+            return _Lin({key: 1})
+        return _Lin({self.canon(e, env): 1})
+
+    def bind_params(self, pats, args, env):
+        new = {}
+        for p, a in zip(pats, args):
+            if p.get("p") == "bind" and "hid" in p:
+                v = self.val(a, env)
+                new[p["hid"]] = ("val", v if v is not None else self.num(a, env))
+            elif p.get("p") == "tuple" or p.get("p") == "tup":
+                v = self.val(a, env)
+                subs = p.get("pats") or p.get("items") or []
+                for i, q in enumerate(subs):
+                    if q.get("p") == "bind" and "hid" in q and isinstance(v, list) and i < len(v):
+                        new[q["hid"]] = ("val", v[i])
+        return new
+
+    def width(self, e, env, depth=0):
+        """the number of columns a string expression occupies, as a linear form; None when it is not a caret string"""
+        e0 = e
+        e = hirq.strip(e)
+        if not isinstance(e, dict) or depth > 14:
+            return None
+        k = e.get("e")
+        if k == "lit" and e.get("lk") == "str":
+            return _Lin(const=len(str(e["lit"]).replace("\n", "")))
+        if k == "binary" and e["op"] == "Add":
+            a, b = self.width(e["a"], env, depth + 1), self.width(e["b"], env, depth + 1)
+            return None if a is None or b is None else a.add(b)
+        if k == "unary" and e.get("op") == "Deref":
+            return self.width(e["a"], env, depth + 1)
+        if k == "mcall" and e["name"] == "repeat" and (e.get("def") or "").endswith("str>::repeat"):
+            rv = hirq.strip(e["recv"])
+            if rv.get("e") != "lit":
+                return None
+            return self.num(e["args"][0], env, depth + 1).scale(len(str(rv["lit"]).replace("\n", "")))
+        if k == "mcall" and e["name"] in self.PASS_STR and not e["args"]:
+            return self.width(e["recv"], env, depth + 1)
+        if k == "path" and e.get("hid") in env and env[e["hid"]][0] == "expr":
+            return self.width(env[e["hid"]][1], env, depth + 1)
+        if k == "block":
+            inner = self.env_of({"e": "block", "stmts": e.get("stmts", []), "ln": 0}, env)
+            return self.width(e["tail"], inner, depth + 1) if e.get("tail") is not None else None
+        if k == "call":
+            cb = self.by_path.get(hirq.strip(e["f"]).get("path") or "")
+            if cb is not None and cb.path.startswith("asca::") and depth < 6:
+                new = self.bind_params(cb.hir.get("params") or [], e["args"], env)
+                return self.width(cb.hir["body"], self.env_of(cb.hir["body"], new), depth + 1)
+        return None
+
+
+def err7(ctx):
+    """The caret line printed under the offending rule is a concatenation of `" ".repeat(x)` and `"^".repeat(y)` pieces. Its
+    total width must telescope to (at most) ONE column of the line plus a constant: `start + (end-start)` = end,
+    `a.start + (a.end-a.start) + (b.start-a.end) + (b.end-b.start)` = b.end. A width in which two columns survive (or one
+    survives negated) draws carets past the end of the line."""
+    r = RuleResult("ERR-7", "error formatters: the width of every caret string, as a linear form over token columns, cancels to at most one column (coefficient 1) plus a constant", floor=20)
+    lib = ctx.lib
+    ev = _CaretEval(lib)
+    n = 0
+    unresolved = 0
+
+    def has_repeat(x, depth=0):
+        for y in hirq.walk(x):
+            if y["e"] == "mcall" and y["name"] == "repeat" and (y.get("def") or "").endswith("str>::repeat"):
+                return True
+            if y["e"] == "call" and depth < 3:
+                cb = ev.by_path.get(hirq.strip(y["f"]).get("path") or "")
+                if cb is not None and cb.path.startswith("asca::error::") and (cb.ret_ty or "").endswith("String") and has_repeat(cb.hir["body"], depth + 1):
+                    return True
+        return False
+
+    def chain_node(x):
+        k = x.get("e")
+        return (k == "binary" and x["op"] == "Add") or k == "addr" or (k == "mcall" and (x["name"] in ev.PASS_STR or x["name"] == "repeat")) \
+            or (k == "unary" and x.get("op") == "Deref")
+
+    for b in lib.bodies:
+        if b.in_test_mod() or not b.hir or b.kind == "closure" or not b.path.startswith(("asca::error::", "<asca::error::")):
+            continue
+        root = b.hir["body"]
+        if not has_repeat(root):
+            continue
+        par = hirq.parent_map(root)
+        env = ev.env_of(root)
+        # variant names of the innermost arm each node sits in
+        arm_of = {}
+        for m in hirq.matches(b):
+            for arm in m["arms"]:
+                names = [(p.get("path") or "").rsplit("::", 1)[-1] for p in hirq.flat_pats(arm["pat"]) if p.get("path")]
+                for y in hirq.walk(arm["body"]):
+                    arm_of[id(y)] = names
+        seen = {}
+        for x in hirq.walk(root):
+            k = x.get("e")
+            is_rep = k == "mcall" and x["name"] == "repeat" and (x.get("def") or "").endswith("str>::repeat")
+            is_helper = k == "call" and has_repeat({"e": "call", "f": x["f"], "args": []}) and not any(has_repeat(a) for a in x["args"])
+            if not (is_rep or is_helper):
+                continue
+            # climb to the root of the chain
+            top = x
+            while True:
+                p = par.get(id(top))
+                if p is not None and chain_node(p) and not (p.get("e") == "mcall" and p["name"] == "repeat"):
+                    top = p
+                else:
+                    break
+            if id(top) in seen:
+                continue
+            seen[id(top)] = True
+            names = arm_of.get(id(top)) or []
+            label = "/".join(names[:3]) + ("/…" if len(names) > 3 else "") or "(no arm)"
+            ev.cols = set()
+            w = ev.width(top, env)
+            n += 1
+            short = b.path.replace("<asca::error::", "").replace(" as asca::error::ASCAError>", "").replace("asca::error::", "")
+            if w is None:
+                unresolved += 1
+                r.inst("%s [%s]: caret string not resolved to a linear form" % (short, label), fn_loc(b, top.get("ln")), "ok", nontrivial=False)
+                continue
+            cols = {a: c for a, c in w.atoms.items() if a in ev.cols}
+            bad = [a for a, c in w.atoms.items() if c < 0 or c > 1]
+            ok = not bad and len(cols) <= 1
+            form = " + ".join(("%s" % a if c == 1 else "%d*%s" % (c, a)) for a, c in sorted(w.atoms.items())) + (" + %d" % w.const if w.const else "")
+            r.inst("%s [%s]: width = %s" % (short, label, form or "0"), fn_loc(b, top.get("ln")), "ok" if ok else "report")
+            if not ok:
+                r.report("ERR-7|%s|%s" % (short, names[0] if names else "-"), fn_loc(b, top.get("ln")), b.path,
+                         "the caret line of this error is %s columns wide: %s, so the carets run past the end of the line the error points at (the second span must be padded by its distance from the end of the first, not by its absolute column)"
+                         % (form, "two token columns survive the cancellation" if len(cols) > 1 else "a column survives with coefficient %s" % ",".join(str(w.atoms[a]) for a in bad)))
+    if n < 20:
+        raise AnchorMissing("ERR-7: %d caret strings found in the error formatters (expected >= 20)" % n)
+    if unresolved > 2:
+        raise AnchorMissing("ERR-7: %d of %d caret strings could not be resolved to a linear form" % (unresolved, n))
+    r.analysed = {"caret_strings": n, "unresolved": unresolved}
+    return r
